@@ -76,3 +76,9 @@ impl fmt::Display for Features {
         Ok(())
     }
 }
+
+/// Set (or replace) the feature state of this thread.
+#[cfg(lace_verif)]
+pub fn verif_force(value: Features) {
+    FEATURES.with(|features| *features.borrow_mut() = Some(value));
+}
